@@ -72,6 +72,9 @@ def gen(r, stack=None, profile='mixed', idx=0):
       e['timeout'] = r.choice([1, 2, 5, 8, 20, 64])
     if spec['open_timeout0'] and r.random() < 0.4:
       e['direct'] = True
+    elif r.random() < 0.04:
+      e['direct'] = True
+      e['past'] = r.choice([1, 1, 3])
     evs.append(e)
   for _ in range(r.choice([0, 0, 0, 1, 2])):
     ep = r.choice(spec['endpoints'])
